@@ -632,6 +632,15 @@ func pqConcurrent(seed int64, cfg pqengine.Config, nEvents int) []string {
 		if rs.Intn(4) == 0 {
 			sizes[i] = 1 + rs.Intn(40)
 		}
+		if cfg.MaxSize != 0 && cfg.MaxSize <= 64*uint64(cfg.PageSize) && rs.Intn(3) == 0 {
+			// small bounded file: events that (nearly) fill the write buffer, so that the flush inside Next is the one that
+			// meets the full file
+			wb := int(cfg.WriteBuffer)
+			if wb < 5*int(cfg.PageSize) {
+				wb = 5 * int(cfg.PageSize)
+			}
+			sizes[i] = wb - 200 + rs.Intn(400)
+		}
 	}
 	var produced int64
 	var wg sync.WaitGroup
@@ -656,26 +665,43 @@ func pqConcurrent(seed int64, cfg pqengine.Config, nEvents int) []string {
 				if r.Intn(3) == 0 {
 					k = 1 + r.Intn(len(b))
 				}
-				if _, err := w.Write(b[:k]); err != nil {
-					fail("Write: %v", err)
-					return
+				// a full file is back-pressure: a refused Write has appended nothing and is repeated once the consumer
+				// has made room; an event is complete after Next also when the flush inside Next failed
+				for tries := 0; ; tries++ {
+					_, err := w.Write(b[:k])
+					if err == nil {
+						break
+					}
+					if !pqengine.IsFull(err) || tries > 20000 {
+						fail("Write: %v", err)
+						return
+					}
+					time.Sleep(100 * time.Microsecond)
 				}
 				b = b[k:]
 			}
-			if err := w.Next(); err != nil {
+			if err := w.Next(); err != nil && !pqengine.IsFull(err) {
 				fail("Next: %v", err)
 				return
 			}
 			atomic.StoreInt64(&produced, int64(i+1))
 			if r.Intn(4) == 0 {
-				if err := w.Flush(); err != nil {
+				if err := w.Flush(); err != nil && !pqengine.IsFull(err) {
 					fail("Flush: %v", err)
 					return
 				}
 			}
 		}
-		if err := w.Flush(); err != nil {
-			fail("final Flush: %v", err)
+		for tries := 0; ; tries++ {
+			err := w.Flush()
+			if err == nil {
+				break
+			}
+			if !pqengine.IsFull(err) || tries > 20000 {
+				fail("final Flush: %v", err)
+				break
+			}
+			time.Sleep(100 * time.Microsecond)
 		}
 	}()
 	go func() { // consumer
@@ -1146,6 +1172,13 @@ func runPQStress(rep *Report, r *rand.Rand, n int) {
 		seed := r.Int63()
 		cfg := cfgs[r.Intn(len(cfgs))]
 		ne := 20 + r.Intn(120)
+		if i%4 == 3 {
+			// a small bounded file: the producer runs into the full file again and again and goes on when the consumer
+			// has ACKed (seeded change C13m: state left behind by a flush that fails inside Next)
+			cfg = []pqengine.Config{{PageSize: 1024, MaxSize: 64 * 1024, WriteBuffer: 4096}, {PageSize: 1024, MaxSize: 80 * 1024, WriteBuffer: 0},
+				{PageSize: 4096, MaxSize: 40 * 4096, WriteBuffer: 16 * 1024}}[(i/4)%3]
+			rep.count("pq-stress-runs/small-bounded-file", 1)
+		}
 		fails := pqConcurrent(seed, cfg, ne)
 		rep.Evaluations++
 		rep.count("pq-stress-runs", 1)
